@@ -17,12 +17,12 @@ from harness.common import PY, VERIF, Check, Driver, env_child, report_broken_ob
 CHILD = os.path.join(VERIF, "harness", "c12_child.py")
 SLOTS = ["pl", "pls", "cl", "cls"]
 SINK = ("verif_sink", "record")
-OD = ("collections", "OrderedDict")
-FR = ("fractions", "Fraction")
+OD = ("fractions", "Fraction")        # stdlib, NOT in ML_ALLOWLIST (checked at run time)
+FR = ("decimal", "Decimal")
 NP = ("numpy", "dtype")
 PICKLE_GLOBALS = [[], [OD], [SINK], [NP], [OD, FR], [NP, SINK]]
-ADDS = [None, ["collections.OrderedDict"], ["verif_sink.record"],
-        ["collections.OrderedDict", "fractions.Fraction"], []]
+ADDS = [None, ["fractions.Fraction"], ["verif_sink.record"],
+        ["fractions.Fraction", "decimal.Decimal"], []]
 KNOWN_WITNESS = {
     "activate-inside-context": ["enter", ["act", 0], "leave"],
     "arm-inside-context": ["enter", "arm", "leave"],
@@ -371,7 +371,7 @@ def main(tier, seed):
     quick = tier == "quick"
     maxlen = 5 if quick else 6
     chk.rule = (f"bounded-exhaustive: every history of length <= {maxlen} over {{arm, activate(none), "
-                "activate([collections.OrderedDict]), remove, enter, leave, leave-by-exception}} with every "
+                "activate([fractions.Fraction]), remove, enter, leave, leave-by-exception}} with every "
                 "leave matched and nesting <= 3 (prefix-closed, so the probe matrix after the last step covers "
                 "every step); random: histories of length 6..40 over 5 addition sets incl. explicit probe "
                 "operations, each in a FRESH child, observed after every step.  Observed: identity class of the "
@@ -382,6 +382,11 @@ def main(tier, seed):
         chk.prove()
     pickles = [build_pickle(g) for g in PICKLE_GLOBALS]
     flags = verdicts(pickles)
+    import fickling.ml as fml
+    vocab_ok = (not flags[0] and not flags[1] and not flags[4] and flags[2] and flags[3] and flags[5]
+                and all(g[1] not in fml.ML_ALLOWLIST.get(g[0], ()) for g in (OD, FR, SINK))
+                and NP[1] in fml.ML_ALLOWLIST.get(NP[0], ()))
+    chk.stats["vocabulary_as_intended"] = vocab_ok
     chk.stats["probe_pickles"] = [{"globals": [".".join(g) for g in gl], "flagged": f}
                                   for gl, f in zip(PICKLE_GLOBALS, flags)]
     exh = enumerate_histories(maxlen)
